@@ -163,6 +163,9 @@ def ops_for(rng, x, d, fmt):
         yield f"roll({sh})", lambda: sparse.roll(x, sh), lambda: np.roll(d, sh)
         shs = tuple(int(v) for v in rng.integers(-5, 6, size=len(axes_u)))
         yield f"roll({shs},{axes_u})", lambda: sparse.roll(x, shs, axis=axes_u), lambda: np.roll(d, shs, axis=axes_u)
+        rep = tuple(int(v) for v in rng.integers(-nd, nd, size=int(rng.integers(2, 4))))  # repeated axes accumulate in NumPy
+        shr = tuple(int(v) for v in rng.integers(-4, 5, size=len(rep)))
+        yield f"roll({shr},{rep})", lambda: sparse.roll(x, shr, axis=rep), lambda: np.roll(d, shr, axis=rep)
         if len(axes_u) > 1:
             yield f"roll({sh},{axes_u})", lambda: sparse.roll(x, sh, axis=axes_u), lambda: np.roll(d, sh, axis=axes_u)
     pw = [(int(a), int(b)) for a, b in rng.integers(0, 3, size=(nd, 2))]
